@@ -8,6 +8,15 @@ For every entry point, argument VARIANTS (arg_variants / spec_variants: values a
 bit order, other type, lost length / padding, masked, one argument replaced, the caller's buffer re-used) are called
 back to back; returned buffers are overwritten by the caller and the call repeated; returned objects stay held and
 must neither change under later calls nor be handed out twice.
+Argument FORMS (arg_forms): every buffer argument of every entry point is also handed over in every container form the
+callee's own conversions may accept (bytes / bytearray / memoryview / bytes subclass, bitarray of either bit order on whole
+octets and not, frozenbitarray, list / tuple of ints, list of bools, numpy arrays of several element types, read-only, from
+frombuffer, non-contiguous, array.array, text of 0/1); each form has its own fresh reference, its argument snapshot, an
+identity / shared-memory test between argument and result, and is called twice more with the very same object the caller
+kept (never rewritten by the caller).  Wall clock: eight deterministic clock settings in different centuries / years /
+months are applied BEFORE the library is imported, in fork servers and in brand-new interpreters.
+A boosted run (proof / correspondence broke, source drift) multiplies the budgets by at most 2; the forms and the extra
+clock settings have a fixed share.
 """
 import json
 import os
@@ -150,14 +159,21 @@ def crc_cfg_data(r, le_ok=True):
     return (["l", [I(x) for x in c]] if isinstance(c, list) else S(c)), d
 
 
+GPS_DATES = ["290200", "290224", "290228", "290296", "280200", "010300", "311299", "010100", "311200", "010101", "311226", "290226", "310426", "000000", "320126", "011326",
+             "010170", "311269", "010138", "190138", "290204", "311250", "010151"]
+
+
 def gps40(r):
     def f(w, v):
         return v.rjust(w, "0")[:w]
 
     if r.random() < 0.2:
         return rhex(r, 40)
+    # day month year (two digits): also leap days (valid in 2000 + yy only if that year is a leap year: 2000 is, 1900 / 2100 are
+    # not), the last / first day of a year / century, days that do not exist
+    ddmmyy = r.choice(GPS_DATES) if r.random() < 0.35 else f(2, str(r.randrange(1, 29))) + f(2, str(r.randrange(1, 13))) + f(2, str(r.randrange(100)))
     s = (r.choice("AV") + f(2, str(r.randrange(24))) + f(2, str(r.randrange(60))) + f(2, str(r.randrange(60)))
-         + f(2, str(r.randrange(1, 29))) + f(2, str(r.randrange(1, 13))) + f(2, str(r.randrange(100)))
+         + ddmmyy
          + r.choice("NS") + f"{r.random() * 9000:09.4f}" + r.choice("EW") + f"{r.random() * 18000:010.4f}"
          + r.choice(["\0\0\0", "1.5", "9.9", "0.0"]) + r.choice(["\0\0\0", "045", "359"]))
     return s.encode("ascii").hex()
@@ -295,6 +311,164 @@ def arg_variants(e, r):
 
 
 HOLDABLE = {"b", "bl", "xa", "np", "d"}
+# forms that are mutable objects (a callee could alter them): kept by the caller and handed over again as they are
+KEEPABLE = {"b", "bl", "bz", "blz", "xa", "mva", "np", "npd", "npv", "npfa", "l", "lb", "arr"}
+
+
+# ------------------------------------------------------------------------------------------------
+# argument FORMS: the same data in every container the callee's own conversions may accept.  What a signature calls `bytes`
+# is, for `bitarray.frombytes`, `bytes()`, `int.from_bytes`, slicing and iteration, anything with the buffer protocol - and
+# a conversion that is a copy for the usual form may be the identity (or a view) for another one, so that an in-place
+# operation that was safe on the usual form lands in the caller's object.  Each form is its own call (own fresh reference).
+def _bits_hex(s, little=False):
+    """hex of bitarray(s, endian).tobytes() for a whole number of octets"""
+    return "".join(f"{int(s[i : i + 8][::-1] if little else s[i : i + 8], 2):02x}" for i in range(0, len(s), 8))
+
+
+def arg_forms(e):
+    """[(form name, encoded argument)] - all forms of one encoded buffer argument (the form it has included)"""
+    t = e[0]
+    out = []
+    if t in ("x", "xa", "mv", "mva"):
+        h = e[1]
+        bits = hex2bits(h)
+        octs = list(bytes.fromhex(h))
+        out = [("bytes", X(h)), ("bytearray", XA(h)), ("memoryview-readonly", ["mv", h]), ("memoryview-writable", ["mva", h]), ("bytes-subclass", ["bsub", h]),
+               # bitarrays whose buffer holds exactly these octets
+               ("bitarray-big-whole-octets", B(bits)), ("bitarray-little-whole-octets", BL(_octet_mirror(bits))),
+               ("frozenbitarray-big", ["fb", bits]), ("frozenbitarray-little", ["fbl", _octet_mirror(bits)]),
+               ("list-of-ints", ["l", [I(x) for x in octs]]), ("tuple-of-ints", ["t", [I(x) for x in octs]]),
+               ("numpy-uint8", ["npd", "uint8", octs]), ("numpy-frombuffer-readonly", ["npfb", h]), ("numpy-frombuffer-writable", ["npfa", h]),
+               ("array-B", ["arr", "B", octs])]
+        if len(bits) >= 8:
+            # not a whole number of octets (pad bits of the buffer zeroed by the caller): another value, still an accepted form
+            out += [("bitarray-big-partial-octet", ["bz", bits[:-3]]), ("bitarray-little-partial-octet", ["blz", _octet_mirror(bits)[:-3]])]
+    elif t in ("b", "bl"):
+        sbits = e[1]
+        vals = [int(c) for c in sbits]
+        out = [("bitarray-big", B(sbits)), ("bitarray-little", BL(sbits)),
+               ("frozenbitarray-big", ["fb", sbits]), ("frozenbitarray-little", ["fbl", sbits]),
+               ("list-of-ints", ["l", [I(x) for x in vals]]), ("list-of-bools", ["lb", vals]), ("tuple-of-ints", ["t", [I(x) for x in vals]]),
+               ("numpy-int64", ["np", vals]), ("numpy-bool", ["npd", "bool", vals]), ("numpy-uint8", ["npd", "uint8", vals]), ("numpy-int8", ["npd", "int8", vals]),
+               ("numpy-float64", ["npd", "float64", vals]), ("numpy-readonly", ["npro", "int64", vals]), ("numpy-non-contiguous", ["npv", "int64", vals]),
+               ("text-01", S(sbits))]
+        if len(sbits) % 8 == 0:
+            hx = _bits_hex(sbits, t == "bl")
+            out += [("bitarray-other-order-same-octets", ["bl" if t == "b" else "b", _octet_mirror(sbits)]),
+                    ("bytes", X(hx)), ("bytearray", XA(hx)), ("memoryview-readonly", ["mv", hx]), ("memoryview-writable", ["mva", hx])]
+    elif t == "np":
+        vals = e[1]
+        sbits = "".join("1" if x else "0" for x in vals)
+        hx = bytes(x & 0xFF for x in vals).hex()
+        out = [("numpy-int64", ["np", vals]), ("numpy-bool", ["npd", "bool", vals]), ("numpy-uint8", ["npd", "uint8", vals]), ("numpy-int8", ["npd", "int8", vals]),
+               ("numpy-float64", ["npd", "float64", vals]), ("numpy-readonly", ["npro", "int64", vals]), ("numpy-non-contiguous", ["npv", "int64", vals]),
+               ("numpy-frombuffer-readonly", ["npfb", hx]), ("numpy-frombuffer-writable", ["npfa", hx]),
+               ("list-of-ints", ["l", [I(x) for x in vals]]), ("list-of-bools", ["lb", vals]), ("tuple-of-ints", ["t", [I(x) for x in vals]]),
+               ("bitarray-big", B(sbits)), ("bitarray-little", BL(sbits)), ("frozenbitarray-big", ["fb", sbits]), ("array-B", ["arr", "B", vals]),
+               ("bytes", X(hx)), ("bytearray", XA(hx))]
+    return out
+
+
+def spec_forms(spec):
+    """[(form name, argument index, call)]: ONE buffer argument of the call handed over in another form"""
+    out = []
+    for j, e in enumerate(spec["a"]):
+        for form, e2 in arg_forms(e):
+            out.append((form, j, {"ep": spec["ep"], "a": spec["a"][:j] + [e2] + spec["a"][j + 1 :]}))
+    return out
+
+
+def keep_arg(spec, j, slot):
+    """the call with argument j being an object the caller keeps between calls and never rewrites"""
+    return {"ep": spec["ep"], "a": spec["a"][:j] + [["k", slot, spec["a"][j]]] + spec["a"][j + 1 :]}
+
+
+def unkept(spec):
+    """the call as made the first time in a fresh interpreter: a kept object is, then, the plain argument; the object an earlier
+    call returned (["r", i, path, value]) is a new object of that value"""
+    if not any(e and e[0] in ("k", "r") for e in spec["a"]):
+        return spec
+    return {"ep": spec["ep"], "a": [e[2] if e and e[0] == "k" else (e[3] if e and e[0] == "r" else e) for e in spec["a"]]}
+
+
+def subhist(calls, idxs):
+    """the calls at the (ascending) positions idxs as a history of their own: references to the result of an earlier call
+    (["r", position, …]) are renumbered; None if a referenced call is not among them"""
+    pos = {p: n for n, p in enumerate(idxs)}
+    out = []
+    for p in idxs:
+        s1 = calls[p]
+        if any(e and e[0] == "r" for e in s1["a"]):
+            a2 = []
+            for e in s1["a"]:
+                if e and e[0] == "r":
+                    if e[1] not in pos:
+                        return None
+                    e = ["r", pos[e[1]]] + list(e[2:])
+                a2.append(e)
+            s1 = dict(s1, a=a2)
+        out.append(s1)
+    return out
+
+
+def enc_of_canon(c):
+    """the encoded argument for a returned buffer, from its (complete) canonical form; None for anything else"""
+    if "…" in c or not c.endswith("'"):
+        return None
+    for pre, tag in (("bb'", "b"), ("bl'", "bl"), ("xa'", "xa"), ("x'", "x")):
+        if c.startswith(pre):
+            return [tag, c[len(pre) : -1]]
+    return None
+
+
+def scribbled(enc):
+    """the value of a returned buffer after the caller overwrote it (c19_worker.scribble)"""
+    if enc[0] in ("b", "bl"):
+        return [enc[0], "".join("1" if ch == "0" else "0" for ch in enc[1])]
+    if enc[0] == "xa":
+        return ["xa", bytes(x ^ 0xFF for x in bytes.fromhex(enc[1])).hex()]
+    return enc
+
+
+def bad_calls(spec, r):
+    """calls of the same entry point that are expected to RAISE (wrong length, wrong type, nothing): a failing call must leave
+    nothing behind that changes the next valid one - also when it is the first call the process ever makes to that class"""
+    out = []
+    a = spec["a"]
+    for j, e in enumerate(a):
+        alts = []
+        if e[0] in ("b", "bl"):
+            alts = [[e[0], e[1][:-1]], [e[0], e[1] + "1"], [e[0], ""], N, I(5), S("x")]
+        elif e[0] in ("x", "xa"):
+            alts = [[e[0], e[1][:-2]], [e[0], e[1] + "00"], [e[0], ""], N, I(5), S(e[1])]
+        elif e[0] == "np":
+            alts = [["np", e[1][:-1]], ["np", e[1] + [1]], ["np", [2] * len(e[1])], N]
+        elif e[0] == "i":
+            alts = [N, S("1")]  # (no other VALUES: a negative count or size may loop or allocate, that is not an error path)
+        elif e[0] in ("d", "l"):
+            alts = [N, I(0)]
+        for x in alts:
+            if x != e:
+                out.append({"ep": spec["ep"], "a": a[:j] + [x] + a[j + 1 :]})
+    r.shuffle(out)
+    return out
+
+
+# entry points that may hand back (or hand back a view of) a mutable argument on the UNCHANGED tree - reviewed, by reading the code:
+ALIAS_OK = {
+    # HammingCommon.correct_numpy_array returns its argument untouched when the word is not repairable
+    "h743.correct_numpy_array", "h1393.correct_numpy_array", "h15113.correct_numpy_array", "h16114.correct_numpy_array", "h17123.correct_numpy_array",
+    # repair_if_necessary(deinterleaved=True) is the documented in-place repair; (deinterleaved=False) works on the copy
+    # made by deinterleave_all_bits
+    "bptc.repair_deinterleaved",
+}
+# (PDU / burst objects that keep the buffer they were built from - `self.full_bits = full_bits` - are not concerned: the test looks
+# at returned BUFFERS, top level or directly inside a returned list / tuple; every as_bits() / as_bytes() of the catalogue builds a
+# new one.  Surveyed over 44 000 calls in all forms: nothing but correct_numpy_array hands its argument back.)
+
+
+def alias_reviewed(ep):
+    return ep in ALIAS_OK
 
 
 def other_content(e, r, others_j):
@@ -320,13 +494,37 @@ def other_content(e, r, others_j):
 CFG_EPS = {"bitcrc.bitwise", "bitcrc.table", "bitcrc.persistent", "bitcrc.verify", "m.crc.new", "m.crc.kept"}
 
 
+BITARRAY_TAGS = ("b", "bl", "fb", "fbl", "bz", "blz")
+# parameters that take anything with the buffer protocol (`bytes` in the signature) and hand it as a whole to bitarray.frombytes:
+# a bit array of whole octets is a well-defined value there; one that does not fill its last octet shows its pad bits, whose
+# content is unspecified (malloc'ed memory, not library state)
+BUFFER_ARGS = {"util.bytes_to_bits": (0,), "util.bytes_bits_bytes": (0,), "m.crc9parts": (0,), "crc9.from_parts": (0,), "crc9.check": (0,)}
+
+
+def form_comparable(ep, j, orig, enc):
+    """may the RESULT of the call with argument j handed over as `enc` (originally `orig`) be compared between executions?
+    A bit array where octets are expected turns every slice the callee takes into a bit array that does not fill its last
+    octet; what the buffer protocol / int.from_bytes / bytes() read from it then contains unspecified pad bits.  Such calls are
+    executed for the argument snapshot and the identity test only."""
+    if enc[0] not in BITARRAY_TAGS or orig[0] not in ("x", "xa", "mv", "mva"):
+        return True
+    return j in BUFFER_ARGS.get(ep, ()) and enc[0] in ("b", "bl", "fb", "fbl") and len(enc[1]) % 8 == 0
+
+
 def in_domain(spec):
-    """reverse_input_bytes on a partial octet reads bitarray's pad bits (unspecified, see crc_cfg_data): whole octets only"""
+    """reverse_input_bytes on a partial octet reads bitarray's pad bits (unspecified, see crc_cfg_data): whole octets only;
+    likewise a bit array handed to a parameter that is read through the buffer protocol (BUFFER_ARGS)"""
+    for j in BUFFER_ARGS.get(spec["ep"], ()):
+        if j < len(spec["a"]):
+            e = spec["a"][j]
+            e = e[2] if e[0] in ("h", "k") else e
+            if e[0] in ("b", "bl", "fb", "fbl") and len(e[1]) % 8:
+                return False
     if spec["ep"] in CFG_EPS:
         c = spec["a"][0]
         if c[0] == "l" and len(c[1]) == 6 and c[1][4][1]:
             for e in spec["a"][1:]:
-                e = e[2] if e[0] == "h" else e
+                e = e[2] if e[0] in ("h", "k") else e
                 if e[0] in ("b", "bl", "fb", "fbl") and len(e[1]) % 8:
                     return False
     return True
@@ -506,8 +704,11 @@ def catalogue():
     # ---- utils
     ep("util.byteswap_bytes", "util", [], lambda r: [r.choice([X, XA])(rhex(r, r.choice([0, 1, 2, 3, 4, 33, 34])))])
     ep("util.byteswap_bytearray", "util", [], lambda r: [XA(rhex(r, r.choice([0, 1, 2, 3, 4, 33, 34])))])
-    ep("util.bytes_to_bits", "util", [], lambda r: [X(rhex(r, r.choice([0, 1, 5]))), I(r.randrange(2))])
-    ep("util.bits_to_bytes", "util", [], lambda r: [B(rbits(r, r.choice([0, 1, 8, 13, 264])))])
+    ep("util.bytes_to_bits", "util", [], lambda r: [r.choice([X, X, XA, lambda h: B(hex2bits(h)), lambda h: BL(hex2bits(h))])(rhex(r, r.choice([0, 1, 5, 10, 12]))), I(r.randrange(2))])  # whole octets
+    ep("util.bits_to_bytes", "util", [], lambda r: [r.choice([B, B, BL])(rbits(r, r.choice([0, 1, 8, 13, 80, 264])))])
+    # conversions chained the way the codecs chain them: the result of one is the argument of the next
+    ep("util.bytes_bits_bytes", "util", [], lambda r: [r.choice([X, XA, lambda h: B(hex2bits(h))])(rhex(r, r.choice([0, 1, 5, 12]))), I(r.randrange(2))])
+    ep("util.bits_numpy_bits", "util", [], lambda r: [r.choice([B, BL])(rbits(r, r.choice([0, 5, 15, 16])))])
     ep("util.numpy_array_to_bitarray", "util", [], lambda r: [["np", [int(c) for c in rbits(r, r.choice([0, 5, 15]))]]])
     ep("util.numpy_array_to_int", "util", [], lambda r: [["np", [int(c) for c in rbits(r, r.choice([1, 5, 15]))]]])
     ep("util.bitarray_to_numpy_array", "util", [], lambda r: [B(rbits(r, r.choice([0, 5, 15])))])
@@ -666,7 +867,7 @@ def diff_excerpt(a, b, width=110):
 
 def explain(history):
     """(result of the last call when made first, result after the history), unabridged, cut to where they differ"""
-    rr = parallel([{"op": "first", "specs": [history[-1]], "full": True}, {"op": "seq", "calls": history, "probe": False, "full": True}], 2)
+    rr = parallel([{"op": "first", "specs": [unkept(history[-1])], "full": True}, {"op": "seq", "calls": history, "probe": False, "full": True}], 2)
     try:
         return diff_excerpt(rr[0]["r"][0][0], rr[1]["r"][-1][0])
     except Exception:
@@ -730,7 +931,18 @@ def run(ctx):
         "the very same buffer object re-used by the caller with replaced content, the same data handed to another entry point sharing "
         "state - run back to back as f(x); f(x'); f(x); f(x').  After some calls the caller overwrites the buffers it got back and calls "
         "again; every object returned inside a history of <= 40 calls is held and examined again after the last call.  "
-        "A case = one executed call inside a history; non-trivial unless the call raised."
+        "Argument FORMS (a fixed share: one pool call per entry point in quick): every buffer argument in every container form the "
+        "callee's own conversions may accept - bytes / bytearray / memoryview (read-only, writable) / bytes subclass, bitarray of either bit "
+        "order on whole octets and not, frozenbitarray, list / tuple of ints, list of bools, numpy arrays (int64, bool, uint8, int8, float64, "
+        "read-only, frombuffer, non-contiguous view), array.array, text of 0/1 - each with its own fresh reference, argument snapshot, an "
+        "identity / shared-memory test between argument and returned buffers (against a reviewed list), and three calls with the very same "
+        "object the caller keeps and never rewrites.  Failing calls first: [bad, good, bad', good] per entry point (wrong length, wrong "
+        "type, None).  Pipes: the object one call returned is the argument of another call (preferably of the same codec), as it is or after "
+        "the caller overwrote it.  In every eighth interleaving random / numpy.random are re-seeded between the calls.  Wall clock: eight "
+        "deterministic clock settings (1970, 1999-12-31 23:59:59, 2001, 2024-02-29, 2026-12-31 23:59:59, 2030, 2100-02-28, 2101; the clock "
+        "advances with every reading, crossing the year / month boundary) and one logging setting (root logger at DEBUG) are applied BEFORE "
+        "the library is imported, in fork servers and in brand-new interpreters; every entry point plus every call whose result carries a "
+        "date is compared across them.  A case = one executed call inside a history; non-trivial unless the call raised."
     )
     ctx.trusted_base += [
         "Lean 4.33 kernel",
@@ -743,6 +955,8 @@ def run(ctx):
     ctx.assumptions += [
         "purity is claimed for the catalogued public codec entry points (CRC, FEC, PDU, burst, Hytera, Motorola, utils), not for the protocol handlers / storage / transmission tracker (C08, C17, C18, C20)",
         "the documented in-place repairs (HammingCommon.check_and_correct, BPTC19696.repair_if_necessary(deinterleaved=True)) may change their argument iff they return that very buffer",
+        "a bit array handed over where octets are expected is compared by result only where it is read as a whole through bitarray.frombytes on whole octets (BUFFER_ARGS); elsewhere the callee's slices of it do not fill their last octet and what the buffer protocol shows of the pad bits is unspecified memory (not library state) - those calls are executed for the argument snapshot and the identity test only",
+        "forced thread interleavings are out of scope (the property does not mention concurrency); state a threaded interleaving could expose is reported as an inventory / shared-state difference",
         "LocationProtocol's default gpsdata carries the date of the import day (date.today() in a default argument); it reaches as_bytes of a default-built StandardReport only and is compared with the import date, not across days",
     ]
     r = ctx.rng
@@ -751,6 +965,14 @@ def run(ctx):
     names = sorted(CAT)
     ncpu = max(2, min(12, (os.cpu_count() or 4) - 2))
     MAXF = 40
+    # a boosted run (x4 source drift, x8 proof / correspondence broke) concentrates the search, but every history costs a forked
+    # interpreter: the multiplier is capped so that a boosted quick run stays within a few minutes
+    eff = min(max(1, ctx.boost), 2)
+    if ctx.boost > eff:
+        ctx.notes.append(f"budget multiplier {ctx.boost} capped at {eff} for C19")
+
+    def bud(quick, thorough):
+        return (thorough if ctx.thorough() else quick) * eff
 
     def fail(kind, inp, what, expected=None, actual=None):
         if len(ctx.failures) < MAXF:
@@ -761,7 +983,7 @@ def run(ctx):
     pool = {}
     for nm in names:
         # the entry points modelled in Lean get a larger pool (their results are also compared with the model)
-        per_ep = ctx.budget(10, 40) * (3 if nm.startswith("m.") else 1)
+        per_ep = bud(10, 40) * (3 if nm.startswith("m.") else 1)
         seen = set()
         lst = []
         tries = 0
@@ -774,7 +996,7 @@ def run(ctx):
                 lst.append(spec)
         pool[nm] = lst
     # ---------------- variants: pairs of calls (A, B) of one entry point that a coarse memo key would identify
-    kvar = min(ctx.budget(2, 6), 6)
+    kvar = min(bud(2, 6), 6)
     var_pairs = []
     for nm in names:
         quota = {}
@@ -804,7 +1026,7 @@ def run(ctx):
         r.shuffle(pairs)
         n = 0
         for a, b in pairs:
-            if n >= min(ctx.budget(40, 400), 400):
+            if n >= min(bud(40, 400), 400):
                 break
             sa, sb0 = r.choice(pool[a]), r.choice(pool[b])
             ja, jb = first_buf(sa), first_buf(sb0)
@@ -823,8 +1045,34 @@ def run(ctx):
                 cross.append((sa, sb))
                 n += 1
     ctx.count("variant:same-data-other-entry-point", len(cross))
+    # ---------------- forms: ONE buffer argument of a pool call in every container form (arg_forms); a fixed share of the budget
+    nform = min(bud(1, 3), 6)
+    form_calls = []  # (entry point, pool call, [(form, argument index, call)])
+    form_of = {}
+    unstable = set()  # calls whose result may contain unspecified memory (form_comparable): snapshot / identity checks only
+    for nm in names:
+        for s0 in pool[nm][:nform]:
+            fl = [(form, j, fs) for form, j, fs in spec_forms(s0) if in_domain(fs)]
+            if fl:
+                form_calls.append((nm, s0, fl))
+                for form, j, fs in fl:
+                    form_of.setdefault(key_of(fs), (form, j))
+                    ctx.count(f"form:{form}")
+                    if not form_comparable(nm, j, s0["a"][j], fs["a"][j]):
+                        unstable.add(key_of(fs))
+    ctx.count("form:result-not-compared(unspecified-pad-bits)", len(unstable))
+    ctx.count("form:entry-points", len({nm for nm, _, _ in form_calls}))
+    # ---------------- failing calls first: [bad, good, bad', good, …] per entry point
+    nbad = min(bud(1, 3), 4)
+    err_hist = []
+    for nm in names:
+        for s0 in pool[nm][:nbad]:
+            bc = [b for b in bad_calls(s0, r) if in_domain(b)][:3]
+            if bc:
+                err_hist.append([x for b in bc for x in (b, s0)])
+    ctx.count("error-first:entry-points", len({h[0]["ep"] for h in err_hist}))
     hist_corpus = corpus_specs()
-    all_specs = [s for nm in names for s in pool[nm]] + [x for _, sa, sb in var_pairs for x in (sa, sb)] + [sb for _, sb in cross]
+    all_specs = [b for h in err_hist for b in h[::2]] + [s for nm in names for s in pool[nm]] + [x for _, sa, sb in var_pairs for x in (sa, sb)] + [sb for _, sb in cross] + [fs for _, _, fl in form_calls for _, _, fs in fl]
     for _, calls in hist_corpus:
         for s in calls:
             all_specs.append(s)
@@ -857,6 +1105,66 @@ def run(ctx):
     ctx.count("probe:shared-objects", len(pristine))
     ctx.notes.append(f"reference table: {len(ref)} calls in {time.time() - t0:.1f}s; state probe covers {len(pristine)} shared objects")
 
+    # ---------------- pipes: (producer call, consumer call, argument index, value handed over, caller overwrites it first)
+    from props.c19_worker import INPLACE_OK
+
+    consumers = {}
+    for nm in names:
+        if nm in INPLACE_OK or nm.startswith("m.ham.cac"):
+            continue
+        for s0 in pool[nm]:
+            for j, e in enumerate(s0["a"]):
+                if e[0] in ("b", "bl", "x", "xa"):
+                    consumers.setdefault(("bits" if e[0] in ("b", "bl") else "octets", len(e[1])), []).append((s0, j))
+    producers = []
+    for nm in names:
+        if nm in INPLACE_OK or nm.startswith("m."):
+            continue
+        for s0 in pool[nm]:
+            enc = enc_of_canon(ref[key_of(s0)][0])
+            if enc is not None and enc[1]:
+                producers.append((s0, enc))
+    # round robin over the producing entry points (mutable results first), so that each of them is piped at least once or twice;
+    # the consumer is, by preference, an entry point of the same codec (decode -> encode, from_bits -> as_bits: where a round-trip
+    # shortcut would sit), otherwise any that takes a buffer of that kind and length
+    by_ep = {}
+    for p in producers:
+        by_ep.setdefault(p[0]["ep"], []).append(p)
+    for lst in by_ep.values():
+        r.shuffle(lst)
+        lst.sort(key=lambda p: p[1][0] == "x")
+    order = [lst[i] for i in range(max((len(v) for v in by_ep.values()), default=0)) for _, lst in sorted(by_ep.items()) if i < len(lst)]
+    pipes = []
+    for n_, (a_spec, enc) in enumerate(order[: bud(240, 2400)]):
+        grp = "bits" if enc[0] in ("b", "bl") else "octets"
+        cand = consumers.get((grp, len(enc[1]))) or [c for k2, v in sorted(consumers.items()) if k2[0] == grp for c in v]
+        if not cand:
+            continue
+        fam = a_spec["ep"].split(".")[0]
+        same = [c for c in cand if c[0]["ep"].split(".")[0] == fam and c[0]["ep"] != a_spec["ep"]]
+        b_spec, j = r.choice(same) if same and r.random() < 0.7 else r.choice(cand)
+        mutate = enc[0] != "x" and (n_ < len(by_ep) or r.random() < 0.4)  # the first round: the caller overwrites the result first
+        enc_arg = scribbled(enc) if mutate else enc
+        b_ref = {"ep": b_spec["ep"], "a": b_spec["a"][:j] + [enc_arg] + b_spec["a"][j + 1 :]}
+        if in_domain(b_ref):
+            pipes.append((a_spec, b_spec, j, enc_arg, mutate))
+    extra = {}
+    for a_spec, b_spec, j, enc_arg, mutate in pipes:
+        b_ref = {"ep": b_spec["ep"], "a": b_spec["a"][:j] + [enc_arg] + b_spec["a"][j + 1 :]}
+        if key_of(b_ref) not in ref:
+            extra.setdefault(key_of(b_ref), b_ref)
+    elist = list(extra.values())
+    chunks = [elist[i : i + 40] for i in range(0, len(elist), 40)]
+    for c, rr in zip(chunks, parallel([{"op": "first", "specs": c} for c in chunks], ncpu)):
+        for s1, res in zip(c, rr["r"]):
+            ref[key_of(s1)] = res
+            uniq[key_of(s1)] = s1
+            if res[0].startswith("ERR worker"):
+                dropped.add(key_of(s1))
+    pipes = [p for p in pipes if key_of({"ep": p[1]["ep"], "a": p[1]["a"][: p[2]] + [p[3]] + p[1]["a"][p[2] + 1 :]}) not in dropped]
+    ctx.count("pipe:result-handed-to-another-call", len(pipes))
+    ctx.count("pipe:after-caller-overwrote-it", sum(1 for p in pipes if p[4]))
+
     # argument buffers must be unchanged already in the reference (single call)
     for k, res in ref.items():
         s = uniq[k]
@@ -867,12 +1175,23 @@ def run(ctx):
             fail("same-object-call-differs", {"history": [s], "index": 0}, f"{s['ep']}: serialising / printing the same object twice gives two different answers", expected=res[2].split(" | ")[0][14:], actual=res[2].split(" | ")[-1])
         elif res[2]:
             ctx.count("in-place-repair-exempted")
+        fm = form_of.get(k)
+        if fm and not res[0].startswith("ERR"):
+            ctx.count(f"form-accepted:{fm[0]}")
         for ch in res[1]:
-            fail("argument-mutated", {"history": [s], "index": 0, "argument": ch[0]}, f"{s['ep']} altered its argument buffer #{ch[0]}", expected=ch[1], actual=ch[2])
+            fail("argument-mutated", {"history": [s], "index": 0, "argument": ch[0], **({"form": fm[0]} if fm and fm[1] == ch[0] else {})},
+                 f"{s['ep']} altered its argument buffer #{ch[0]}" + (f" (handed over as {fm[0]})" if fm and fm[1] == ch[0] else ""), expected=ch[1], actual=ch[2])
+        for al in (res[3] if len(res) > 3 else []):
+            ctx.count("result-aliases-argument:" + ("reviewed" if alias_reviewed(s["ep"]) else "NEW"))
+            if not alias_reviewed(s["ep"]):
+                fail("result-aliases-argument", {"history": [s], "index": 0, "argument": al[0], **({"form": fm[0]} if fm and fm[1] == al[0] else {})},
+                     f"{s['ep']}: the returned object {al[1]} #{al[0]}" + (f" (handed over as {fm[0]})" if fm and fm[1] == al[0] else "")
+                     + ": what the caller (or a later in-place operation of the library) does to the result lands in the caller's buffer",
+                     expected="a new object", actual=al[1])
 
     # ---------------- brand-new interpreters on a sample (validates the fork server; catches import-order effects)
-    nfresh = ctx.budget(24, 160)
-    sample = [ulist[i] for i in sorted(r.sample(range(len(ulist)), min(nfresh, len(ulist)))) if key_of(ulist[i]) not in dropped]
+    nfresh = bud(24, 160)
+    sample = [ulist[i] for i in sorted(r.sample(range(len(ulist)), min(nfresh, len(ulist)))) if key_of(ulist[i]) not in dropped and key_of(ulist[i]) not in unstable]
     fres = fresh_one(sample)
     for s, fr in zip(sample, fres):
         ctx.case(("fresh", key_of(s)))
@@ -886,7 +1205,7 @@ def run(ctx):
         histories.append(("corpus:" + label, calls))
     # each call twice in a row
     for nm in names:
-        for s in pool[nm][: ctx.budget(3, 12)]:
+        for s in pool[nm][: bud(3, 12)]:
             histories.append(("twice", [s, s]))
     # variants back to back on the same entry point: f(x); f(x'); f(x)  and  f(x'); f(x); f(x')
     # (the property quantifies over all histories, so several pairs share one process: the state probe is what costs)
@@ -906,6 +1225,34 @@ def run(ctx):
     scr = [[dict(s, m=1), s, dict(s, m=1), s] for nm in names for s in pool[nm][:kvar]]
     for i in range(0, len(scr), CH):
         histories.append(("scribble", [c for blk in scr[i : i + CH] for c in blk]))
+    # every form of a buffer argument as an object the caller KEEPS: the same call three times with the very same object, never
+    # rewritten by the caller (a callee that alters the object, or remembers it, answers the later calls differently).
+    # The documented in-place repairs may alter it: they are called once per form only (the reference above).
+    from props.c19_worker import INPLACE_OK
+
+    for nm, s0, fl in form_calls:
+        if nm in INPLACE_OK or nm == "m.ham.cac":
+            continue
+        calls = []
+        for form, j, fs in fl:
+            if key_of(fs) in dropped:
+                continue
+            ks = keep_arg(fs, j, f"{j}:{form}")
+            calls += [ks, ks, ks] if fs["a"][j][0] in KEEPABLE else [fs, fs]
+        for i in range(0, len(calls), 60):
+            histories.append(("forms", calls[i : i + 60]))
+    # a call that RAISES comes first (the first call the process makes to that class), then the valid call, alternating
+    for h in err_hist:
+        h = [c for c in h if key_of(c) not in dropped]
+        if h:
+            histories.append(("error-first", h))
+    # the object one call returned is the argument of another call (as it is, or after the caller overwrote it): a memo keyed by
+    # the identity of a returned object, a result that is a view of library state, an in-place step of the consumer
+    for i in range(0, len(pipes), CH):
+        calls = []
+        for a_spec, b_spec, j, enc_arg, mutate in pipes[i : i + CH]:
+            calls += [dict(a_spec, m=1) if mutate else a_spec, {"ep": b_spec["ep"], "a": b_spec["a"][:j] + [["r", len(calls), None, enc_arg]] + b_spec["a"][j + 1 :]}]
+        histories.append(("pipe", calls))
     # ordered pairs of entry points sharing inventoried state: A;B and B;A
     tags = sorted({t for nm in names for t in CAT[nm]["tags"]})
     npairs = 0
@@ -913,14 +1260,14 @@ def run(ctx):
         grp = [nm for nm in names if t in CAT[nm]["tags"]]
         pairs = [(a, b) for a in grp for b in grp if a < b]
         r.shuffle(pairs)
-        for a, b in pairs[: ctx.budget(45, 100000)]:
+        for a, b in pairs[: bud(45, 100000)]:
             sa, sb = r.choice(pool[a]), r.choice(pool[b])
             histories.append((f"pair:{t}", [sa, sb, sa]))
             histories.append((f"pair:{t}", [sb, sa, sb]))
             npairs += 1
     ctx.count("ordered-pairs-sharing-state", npairs * 2)
     # random interleavings
-    nseq = ctx.budget(400, 5000)
+    nseq = bud(400, 5000)
     seqlen = 30
     weights = [3 if CAT[nm]["tags"] else 1 for nm in names]
     for _ in range(nseq):
@@ -930,15 +1277,16 @@ def run(ctx):
         for _ in range(seqlen):
             nm = r.choice(focus) if focus and r.random() < 0.8 else r.choices(names, weights)[0]
             calls.append(r.choice(pool[nm]))
-        histories.append(("interleaving", calls))
+        # in every eighth the application re-seeds `random` / `numpy.random` between its calls
+        histories.append(("interleaving:reseed" if len(histories) % 8 == 0 else "interleaving", calls))
     # long chained histories
-    for _ in range(ctx.budget(4, 40)):
-        calls = [r.choice(pool[r.choices(names, weights)[0]]) for _ in range(ctx.budget(400, 2500) // max(1, ctx.boost))]
+    for _ in range(bud(4, 40)):
+        calls = [r.choice(pool[r.choices(names, weights)[0]]) for _ in range(bud(400, 2500) // eff)]
         histories.append(("long", calls))
 
     t0 = time.time()
     # every object returned inside a (short) history stays held by the caller and is examined again after the last call
-    resp = parallel([{"op": "seq", "calls": calls, "probe": True, "hold": len(calls) <= 40} for _, calls in histories], ncpu)
+    resp = parallel([{"op": "seq", "calls": calls, "probe": True, "hold": len(calls) <= 40, "reseed": label.endswith(":reseed")} for label, calls in histories], ncpu)
     ctx.notes.append(f"{len(histories)} histories ({sum(len(c) for _, c in histories)} calls) in {time.time() - t0:.1f}s")
     bad_hist = []
     held_bad = []
@@ -946,13 +1294,15 @@ def run(ctx):
     state_changed = []
     for (label, calls), rr in zip(histories, resp):
         ctx.count(f"history:{label.split(':')[0]}")
+        if label.endswith(":reseed"):
+            ctx.count("history:random-reseeded-between-calls")
         if "child_error" in rr:
             raise Infra(f"history run failed in the worker: {rr['child_error']}")
         first_bad = None
         for i, (s, res) in enumerate(zip(calls, rr["r"])):
-            exp = ref[key_of(s)]
+            exp = ref[key_of(unkept(s))]
             ctx.case((label, i, key_of(s), key_of(calls[i - 1]) if i else ""), nontrivial=not res[0].startswith("ERR"), sample={"history": label, "position": i, "call": s["ep"], "result": res[0][:120]} if (i == 3 and len(ctx.samples) < 12) else None)
-            if res[0] != exp[0] and first_bad is None:
+            if res[0] != exp[0] and first_bad is None and key_of(unkept(s)) not in unstable:
                 first_bad = i
                 bad_hist.append((label, calls, i, exp[0], res[0]))
             for ch in res[1]:
@@ -994,7 +1344,7 @@ def run(ctx):
                 continue
             for j, (s, res) in enumerate(zip(tail, rr["r"][len(pre):])):
                 ctx.case(("directed", key_of(s), key_of(pre[-1])))
-                if res[0] != ref[key_of(s)][0]:
+                if res[0] != ref[key_of(s)][0] and key_of(s) not in unstable:
                     bad_hist.append(("directed:" + label, pre + tail[: j + 1], len(pre) + j, ref[key_of(s)][0], res[0]))
                     break
         ctx.count("directed-search-histories", len(jobs))
@@ -1003,7 +1353,7 @@ def run(ctx):
     for label, calls, ch in held_bad[:4]:
         i = ch[0]
         best, bch = calls, ch
-        cands = [[calls[i], c] for c in calls[i + 1 :][:40]] + [calls[i:]]
+        cands = [x for x in ([subhist(calls, [i, q]) for q in range(i + 1, min(len(calls), i + 41))] + [subhist(calls, list(range(i, len(calls))))]) if x]
         rs = parallel([{"op": "seq", "calls": c, "probe": False, "hold": True} for c in cands], ncpu)
         for c, rr in zip(cands, rs):
             hc = [x for x in (rr.get("held_changed") or []) if x[0] == 0]
@@ -1031,7 +1381,8 @@ def run(ctx):
     # shrink the first few history-dependent results to a short reproducing history
     for label, calls, i, exp, act in bad_hist[:6]:
         best = calls[: i + 1]
-        cands = [[calls[i]]] + [calls[max(0, i - k) : i + 1] for k in (1, 2, 4, 8, 16) if k < i] + [[c, calls[i]] for c in calls[max(0, i - 40) : i]]
+        cands = [x for x in ([subhist(calls, [i])] + [subhist(calls, list(range(max(0, i - k), i + 1))) for k in (1, 2, 4, 8, 16) if k < i]
+                             + [subhist(calls, [q, i]) for q in range(max(0, i - 40), i)]) if x]
         if cands:
             rs = parallel([{"op": "seq", "calls": c, "probe": False} for c in cands], ncpu)
             for c, rr in sorted(zip(cands, rs), key=lambda x: len(x[0])):
@@ -1050,19 +1401,68 @@ def run(ctx):
     for _ in bad_hist[6:]:
         ctx.count("fail:history-dependent-result")
 
-    # ---------------- wall-clock / randomness: two different deterministic settings, fresh state each
-    amb = [s for nm in names for s in pool[nm][: ctx.budget(3, 10)]]
-    chunks = [amb[i : i + 40] for i in range(0, len(amb), 40)]
-    ra = parallel([{"op": "first", "specs": c} for c in chunks], max(2, ncpu // 2), ambient=1)
-    rb = parallel([{"op": "first", "specs": c} for c in chunks], max(2, ncpu // 2), ambient=2)
-    for c, xa, xb in zip(chunks, ra, rb):
-        for s, a, b in zip(c, xa["r"], xb["r"]):
-            ctx.case(("ambient", key_of(s)))
-            base = ref[key_of(s)][0]
-            if a[0] != b[0] or a[0] != base:
-                fail("ambient-dependent-result", {"history": [s], "index": 0, "settings": "time/datetime/random/secrets/uuid/os.urandom replaced by two deterministic settings before import"},
-                     f"{s['ep']} depends on wall-clock time or randomness", expected=base, actual=[a[0], b[0]])
-    ctx.count("ambient-calls", len(amb) * 2)
+    # ---------------- wall-clock / randomness: deterministic settings applied BEFORE the library is imported, fresh state each.
+    # Settings 1 and 2 get the broad sample; the other clocks (other centuries / years / months, a leap day, Dec 31 23:59:59,
+    # an unset clock) and the logging setting get one call of every entry point plus every call whose result carries a date
+    # or time or that belongs to the packet families with time fields.
+    from props.c19_worker import AMBIENT, AMBIENT_LOGGING, ambient_description
+
+    amb_main = [s for nm in names for s in pool[nm][: bud(3, 10)]]
+    timed = [s for s in ulist if key_of(s) not in dropped and key_of(s) not in unstable and ("t'" in ref[key_of(s)][0] or s["ep"].startswith(("gpsdata.", "lp.", "mbxml.write_infotime", "m.gpsdate")))]
+    if len(timed) > bud(150, 1500):
+        timed = [timed[i] for i in sorted(r.sample(range(len(timed)), bud(150, 1500)))]
+    amb_extra = list({key_of(s): s for s in [pool[nm][0] for nm in names if pool[nm]] + timed}.values())
+    settings = sorted(AMBIENT) + [AMBIENT_LOGGING]
+    amb_res = {}
+
+    def amb_run(k):
+        specs = amb_main if k in (1, 2) else amb_extra
+        chunks = [specs[i : i + 40] for i in range(0, len(specs), 40)]
+        rs = parallel([{"op": "first", "specs": c} for c in chunks], 2 if k in (1, 2) else 1, ambient=k)
+        amb_res[k] = {key_of(s): x[0] for c, rr in zip(chunks, rs) for s, x in zip(c, rr["r"])}
+
+    errs = []
+
+    def amb_guard(k):
+        try:
+            amb_run(k)
+        except BaseException as e:  # noqa
+            errs.append(e)
+
+    ts = [threading.Thread(target=amb_guard, args=(k,)) for k in settings]
+    for t in ts:
+        t.start()
+    for t in ts:
+        t.join()
+    if errs:
+        raise Infra(f"C19 ambient run failed: {errs[0]}")
+    # the same in brand-new interpreters (the setting is applied by `--one` before the import, too): a few date-bearing calls per clock
+    nb = bud(2, 6)
+    bn = [(k, s) for k in sorted(AMBIENT) for s in (timed[:: max(1, len(timed) // nb)][:nb] if timed else [])]
+    by_k = {}
+    for k, s in bn:
+        by_k.setdefault(k, []).append(s)
+    for k, specs in by_k.items():
+        for s, fr in zip(specs, fresh_one(specs, ambient=k)):
+            amb_res.setdefault(("new", k), {})[key_of(s)] = fr[0]
+    ctx.count("ambient-brand-new-interpreters", len(bn))
+    seen_amb = set()
+    for tag in sorted(amb_res, key=str):
+        k = tag[1] if isinstance(tag, tuple) else tag
+        for key, got in amb_res[tag].items():
+            ctx.case(("ambient", str(tag), key))
+            ctx.count(f"ambient-setting:{k}")
+            base = ref[key][0]
+            if got != base and key not in seen_amb:
+                seen_amb.add(key)
+                s1 = uniq[key]
+                others = {str(t): amb_res[t][key] for t in sorted(amb_res, key=str) if key in amb_res[t]}
+                fail("ambient-dependent-result", {"history": [s1], "index": 0, "setting": k,
+                                                  "settings": {str(t): ambient_description(t[1] if isinstance(t, tuple) else t) for t in sorted(amb_res, key=str) if key in amb_res[t]},
+                                                  "note": "the setting is applied before the library is imported (fork server and brand-new interpreter alike)"},
+                     f"{s1['ep']} depends on " + ("the logging configuration" if k == AMBIENT_LOGGING else "wall-clock time or randomness (of the call or of the moment the library was imported)"),
+                     expected=base, actual=others)
+    ctx.count("ambient-calls", sum(len(v) for v in amb_res.values()))
 
     # ---------------- the inventory of the source as it is now against the reviewed list (also a Lean theorem: inventory_baseline)
     new_items, gone_items = inventory_diff()
@@ -1071,7 +1471,8 @@ def run(ctx):
     if new_items or gone_items:
         ctx.notes.append("hidden-state inventory differs from the reviewed list in Props/C19.lean; after reviewing run tools/c19_rebaseline.py --write")
         if not any(d.get("component") == "inventory-baseline" for d in ctx.disagreements):
-            ctx.disagreements.append({"component": "inventory-baseline", "line": "tools/scan_state.py vs `reviewed` in Props/C19.lean",
+            # first in the list: the replay file keeps the first differences only
+            ctx.disagreements.insert(0, {"component": "inventory-baseline", "line": "tools/scan_state.py vs `reviewed` in Props/C19.lean",
                                       "impl": {"new": [" | ".join(x) for x in new_items[:12]], "gone": [" | ".join(x) for x in gone_items[:12]]},
                                       "model": "the reviewed list"})
 
@@ -1081,7 +1482,8 @@ def run(ctx):
 
     # ---------------- correspondence with the Lean model: history-free model of the modelled entry points + inventory
     if not ctx.search_only and ctx.driver_ok:
-        for comp, pairs in model_lines(ctx, pool, ref, histories, resp).items():
+        clocks = {AMBIENT[k][0][0]: amb_res.get(k) or {} for k in sorted(AMBIENT)}
+        for comp, pairs in model_lines(ctx, pool, ref, histories, resp, clocks).items():
             ctx.correspond(comp, pairs)
 
 
@@ -1093,7 +1495,7 @@ def replay(obj):
     if not hist:
         print("no history recorded (proof / correspondence replay): see 'no_longer_checks' / 'correspondence_differences' in the file")
         return 1
-    rr = parallel([{"op": "seq", "calls": hist, "probe": True, "hold": True}, {"op": "first", "specs": [hist[-1]]}, {"op": "probe"}], 1)
+    rr = parallel([{"op": "seq", "calls": hist, "probe": True, "hold": True}, {"op": "first", "specs": [unkept(hist[-1])]}, {"op": "probe"}], 1)
     seq, first, pristine = rr[0], rr[1]["r"][0], rr[2]["probe"]
     held = (seq.get("held_changed") or []) + (seq.get("held_alias") or [])
     for ch in seq.get("held_changed") or []:
@@ -1113,11 +1515,17 @@ def replay(obj):
         print("shared object changed:", k)
     amb = False
     if f.get("kind") == "ambient-dependent-result":
-        a = parallel([{"op": "first", "specs": [hist[-1]]}], 1, ambient=1)[0]["r"][0][0]
-        b = parallel([{"op": "first", "specs": [hist[-1]]}], 1, ambient=2)[0]["r"][0][0]
-        print("time/random setting 1:", a)
-        print("time/random setting 2:", b)
-        amb = a != b or a != first[0]
+        from props.c19_worker import AMBIENT, AMBIENT_LOGGING, ambient_description
+
+        for k in sorted(AMBIENT) + [AMBIENT_LOGGING]:
+            a = parallel([{"op": "first", "specs": [unkept(hist[-1])], "full": True}], 1, ambient=k)[0]["r"][0][0]
+            base_full = parallel([{"op": "first", "specs": [unkept(hist[-1])], "full": True}], 1)[0]["r"][0][0] if k == min(AMBIENT) else base_full  # noqa: F821
+            ex2 = diff_excerpt(base_full, a) if a != base_full else None
+            print(f"setting {k} ({ambient_description(k)}):", "same as without the setting" if ex2 is None else f"DIFFERS: {ex2[1]}   (without the setting: {ex2[0]})")
+            amb = amb or a != base_full
+    alias = [(s["ep"], al) for s, res in zip(hist, seq["r"]) for al in (res[3] if len(res) > 3 else []) if not alias_reviewed(s["ep"])]
+    for epn, al in alias:
+        print(f"the object returned by {epn} {al[1]} #{al[0]}")
     print("expected:", f.get("expected"))
     print("actual  :", f.get("actual"))
-    return 1 if (last[0] != first[0] or mutated or diff or amb or held) else 0
+    return 1 if (last[0] != first[0] or mutated or diff or amb or held or alias) else 0
